@@ -351,6 +351,10 @@ def I_mass(obj, salt, where="", presented_as_density=None):
             cmp_lin("I_mass." + name, A(getattr(clone(obj), name)()), np.exp(lm), floor=1e-300, where=where)
         cmp_lin("I_mass.integrate1", A(clone(obj).integrate("1")), np.exp(lm), floor=1e-300, where=where)
     n += 5
+    # (ii') formula-free cross-check: quadrature of the function the object evaluates to (D <= 2)
+    if int(obj.D) <= QUAD_MAX_D[0]:
+        cmp_log("I_mass.quadrature", quad_log_mass(obj, Lam, nu), lm, rtol=1e-7, where=where)
+        n += 1
     # (iii) densities
     is_density = k == "pdf" if presented_as_density is None else presented_as_density
     if is_density:
@@ -371,6 +375,34 @@ def I_mass(obj, salt, where="", presented_as_density=None):
     cmp_log("I_mass.normalize_mass", A(c.log_integral()), np.zeros_like(lm), where=where)
     n += 3
     return n
+
+
+QUAD_MAX_D = [1]  # quick tier: D == 1; the thorough tier raises it to 2
+
+
+def quad_log_mass(obj, Lam, nu):
+    """log of the integral of exp(evaluate_ln) by the trapezoidal rule on a grid centred at each
+    component's mode and scaled by its Cholesky factor (spectrally accurate for Gaussians).
+    Only the *placement* of the grid uses the parameters; the integrand is the library's evaluate_ln."""
+    import jax.numpy as jnp
+
+    R, D = nu.shape
+    if D == 1:
+        z = np.linspace(-12.0, 12.0, 481)[:, None]
+    else:
+        g = np.linspace(-9.0, 9.0, 121)
+        z = np.stack(np.meshgrid(g, g, indexing="ij"), axis=-1).reshape(-1, 2)
+    h = (z[1, -1] - z[0, -1]) if D == 1 else (g[1] - g[0])
+    out = np.empty(R)
+    for r in range(R):
+        S = np.linalg.inv(Lam[r])
+        L = np.linalg.cholesky(0.5 * (S + S.T))
+        mu = S @ nu[r]
+        X = mu[None] + z @ L.T
+        v = A(clone(obj).evaluate_ln(jnp.asarray(X)))[r]
+        m = np.max(v)
+        out[r] = m + np.log(np.sum(np.exp(v - m))) + D * np.log(h) + np.sum(np.log(np.diag(L)))
+    return out
 
 
 # ---------------------------------------------------------------------------------------
